@@ -10,6 +10,9 @@ import AgModel.Model.ShredGate
       bs_new                                                         -> `ok`
       bs_add <set> <i> <c|n> <pk> muts…                              -> `rej <verdict>` | `pass flag <0|1>` | `Equivocation flag 1` | `InvalidShred flag 1`
         (`c`: validate with the blockstore's cached commitment as the node does; `n`: validate without cache)
+      node_new                                                       -> `ok`        (a real node, not the leader of the slot)
+      node <set> <i> <leader pk> muts…                               -> `done` | `undecodable`   (Alpenglow::handle_disseminator_shred once)
+      probe <set> <i>                                                -> `pass` | `Equivocation` | `InvalidShred`  (add_shred_from_dissemination on the node's blockstore)
     muts: slot n | idx n | last n | tag n | sidx n | dat pos | dlen m|p | sig junk | sig set j | pe l junk k |
           pe l set j l2 | plen n | ppush k
 -/
@@ -76,6 +79,18 @@ def step (st : St) (ws : List String) : St × List String :=
           | .equivocation => s!"Equivocation flag {flag}"
           | .invalidShred => s!"InvalidShred flag {flag}"
         ({ st with gate := g }, [out])
+  | ["node_new"] => ({ st with gate := {} }, ["ok"])
+  | "node" :: set :: i :: pk :: muts =>
+    match mutate st (st.get (nat! set) (nat! i)).shred muts with
+    | none => (st, ["undecodable"])
+    | some s => ({ st with gate := st.gate.nodeHandle toyEnv s (nat! pk) }, ["done"])
+  | ["probe", set, i] =>
+    let (g, verdict) := st.gate.add (st.get (nat! set) (nat! i))
+    let out := match verdict with
+      | .pass => "pass"
+      | .equivocation => "Equivocation"
+      | .invalidShred => "InvalidShred"
+    ({ st with gate := g }, [out])
   | _ => (st, ["bad-op"])
 
 def main : IO Unit := runDriver ({} : St) step
